@@ -5,8 +5,12 @@ sys.path.insert(0, os.path.dirname(os.path.abspath(__file__)))
 import vlib
 
 SPECS = [
-    ('harness/h_exact.cpp', 'symx'),
-    ('replay/r_mcb.cpp', 'real'),
+    ('harness/h_exact.cpp', 'symx'), ('harness/h_approx.cpp', 'symx'), ('harness/h_sptree.cpp', 'symx'), ('harness/h_coll.cpp', 'symx'),
+    ('harness/h_rel.cpp', 'symx'), ('harness/h_gf2.cpp', 'symx'), ('harness/h_topo.cpp', 'symx'), ('harness/h_valid.cpp', 'symx'),
+    ('harness/h_int.cpp', 'symx', 'h_int8', ('-DBVW=8',)), ('harness/h_int.cpp', 'symx', 'h_int12', ('-DBVW=12',)),
+    ('harness/h_int.cpp', 'symx', 'h_int16', ('-DBVW=16',)),
+    ('replay/r_mcb.cpp', 'real'), ('replay/r_misc.cpp', 'real'), ('replay/r_gf2.cpp', 'real'), ('replay/r_int.cpp', 'real_nolib'),
+    ('replay/r_c20.cpp', 'real'),
 ]
 
 if __name__ == '__main__':
